@@ -126,3 +126,28 @@ def long_token(rng, text):
     else:
         toks = [tok]
     return join(toks)
+
+
+def init_lists(rng):
+    """declarations whose brace initialisers have too few, exactly enough or too many elements (structs, arrays, nested, named fields)"""
+    nf = rng.randrange(1, 6)
+    fields = ['f%d' % i for i in range(nf)]
+    decl = 'typedef struct { %s } S; ' % ' '.join('int %s;' % f for f in fields)
+    def lst(n, named=False):
+        items = []
+        for i in range(n):
+            v = str(rng.randrange(0, 9))
+            items.append('%s: %s' % (fields[i % nf], v) if named and rng.random() < 0.6 else v)
+        return '{ ' + ', '.join(items) + ' }'
+    k = rng.choice([0, max(0, nf - 1), nf, nf, nf + 1, nf + 2, nf + 7])
+    out = decl + 'S s = %s; ' % lst(k, named=rng.random() < 0.4)
+    m = rng.randrange(1, 4)
+    j = rng.choice([0, max(0, m - 1), m, m + 1, m + 4])
+    out += 'int a[%d] = %s; ' % (m, lst(j))
+    if rng.random() < 0.5:
+        out += 'S t[2] = { %s, %s%s }; ' % (lst(rng.choice([nf, nf + 1])), lst(nf), ', ' + lst(nf) if rng.random() < 0.4 else '')
+    if rng.random() < 0.4:
+        out += 'typedef struct { S in; int z[2]; } O; O o = { %s, %s%s }; ' % (lst(rng.choice([nf - 1 if nf > 1 else 1, nf, nf + 1])), lst(rng.choice([1, 2, 3])), ', 5' if rng.random() < 0.4 else '')
+    if rng.random() < 0.3:
+        out += 'void f() { S l = %s; int b[2] = %s; }' % (lst(rng.choice([nf, nf + 1, nf + 3])), lst(rng.choice([2, 3])))
+    return out
